@@ -3,6 +3,7 @@
 //   facts calls  <file.go> <funcname>    prints one line per call of funcname(...) at package level or anywhere,
 //                                        with each argument rendered as source text
 //   facts cases  <file.go> <func>        prints the case labels of every switch in the named function
+//   facts varsrc <file.go> <var>         prints the source text of a package-level var initialiser
 package main
 
 import (
@@ -169,6 +170,29 @@ func main() {
 			return
 		}
 		fail("func %s not found", os.Args[3])
+	case "varsrc":
+		// (added for C10) prints the normalised source text of the initialiser of a package-level var, e.g. a map literal
+		fset := token.NewFileSet()
+		f, err := parser.ParseFile(fset, os.Args[2], nil, parser.SkipObjectResolution)
+		if err != nil {
+			fail("parse: %v", err)
+		}
+		for _, d := range f.Decls {
+			gd, ok := d.(*ast.GenDecl)
+			if !ok || gd.Tok != token.VAR {
+				continue
+			}
+			for _, sp := range gd.Specs {
+				vs := sp.(*ast.ValueSpec)
+				for i, nm := range vs.Names {
+					if nm.Name == os.Args[3] && i < len(vs.Values) {
+						fmt.Println(src(fset, vs.Values[i]))
+						return
+					}
+				}
+			}
+		}
+		fail("var %s not found", os.Args[3])
 	default:
 		fail("unknown subcommand")
 	}
